@@ -285,16 +285,19 @@ def run(ch: Checker) -> None:
                                     'dotted-quad forms such as [::ffff:192.0.2.1]): those literals reach the resolver with their brackets' % pat, p.describe(16))
                         if lab is False:
                             stripped, how = True, 'regex did not match (not a bracketed literal)'
-            if nd.kind == 'stmt' and lab != 'exc' and isinstance(nd.ast, ast.Assign) and norm(nd.ast.targets[0]) == ap:
-                v = norm(nd.ast.value).replace(' ', '')
-                if v in ('(%s[0][1:-1],%s[1])' % (ap, ap), "(%s[0].strip('[]'),%s[1])" % (ap, ap)) or '.group(1)' in v:
-                    stripped, how = True, 'unwrapped'
             if nd.kind == 'stmt' and nd.ast is not None:
                 for c in walk_no_nested(nd.ast):
                     if isinstance(c, ast.Call) and attr_chain(c.func) in ('ipaddress.ip_address', 'socket.create_connection') or \
                             (isinstance(c, ast.Call) and isinstance(c.func, ast.Attribute) and c.func.attr == 'connect'):
                         n2 += 1
-                        if not stripped:
+                        # the host text THIS call is given, in terms of the address parameter as it came in
+                        hv_ = sym.value(c.args[0], sidx) if c.args else None
+                        if hv_ is not None and attr_chain(c.func) != 'ipaddress.ip_address':
+                            hv_ = hv_.elts[0] if isinstance(hv_, ast.Tuple) and hv_.elts else ast.Subscript(value=hv_, slice=ast.Constant(value=0), ctx=ast.Load())
+                        hv = norm(hv_).replace(' ', '') if hv_ is not None else ''
+                        unwrapped = hv in ('%s[0][1:-1]' % ap, "%s[0].strip('[]')" % ap) or '.group(1)' in hv
+                        as_given = hv == '%s[0]' % ap
+                        if not (unwrapped or (as_given and stripped)):
                             bad2 = bad2 or ('%s is reached with the host as it came out of the URL: a bracketed IPv6 literal ("[::1]") is not a valid address for the socket layer '
                                             '(name resolution error, 502)' % norm(c)[:60], p.describe(16))
                         # C14.5 facts
